@@ -8,7 +8,10 @@ type WorldSpec struct {
 	GCPeriodNs  int64      `json:"gc_ns"`
 	MaxDirCount uint64     `json:"max_dir"`
 	SeqBase     uint64     `json:"seq_base,omitempty"`
-	RootStyle   int        `json:\"root_style,omitempty\"` // spelling of the roots in the configuration: 0 clean, 1 trailing slash, 2 with a /./ segment, 3 doubled slash
+	// BadgerDefaults: Badger is opened with its own default sizes instead of the small ones the
+	// simulated worlds normally use (cases about the size of one commit)
+	BadgerDefaults bool `json:"badger_defaults,omitempty"`
+	RootStyle      int  `json:\"root_style,omitempty\"` // spelling of the roots in the configuration: 0 clean, 1 trailing slash, 2 with a /./ segment, 3 doubled slash
 }
 
 type RootSpec struct {
